@@ -26,9 +26,23 @@ GROUPS = {
         "shim_features": ["cap2"],
         "harness": {
             "fontdrasil/src/variations.rs": "harness/fontdrasil/variations.rs",
+            "fontdrasil/src/piecewise_linear_map.rs": "harness/fontdrasil/piecewise_linear_map.rs",
+            "fontdrasil/src/coords.rs": "harness/fontdrasil/coords.rs",
         },
     },
 }
+
+GROUPS["fontir"] = {
+    "package": "fontir",
+    "t1_files": ["fontir/src/feature_variations.rs"],
+    "t2_files": ["fontir/src/feature_variations.rs"],
+    "shim_features": ["cap2"],
+    "harness": {
+        "fontir/src/feature_variations.rs": "harness/fontir/feature_variations.rs",
+    },
+}
+
+GROUPS["fontir-c4"] = dict(GROUPS["fontir"], shim_features=[])
 
 HARNESSES = []
 
@@ -73,7 +87,62 @@ H("c07_delta_weights_pair", "C07", "fontdrasil", "variations",
   bound="2 locations/regions on 1 axis, symbolic k/4 values; unwind 6",
   oracle="earlier master listed <=> its scalar at the later location != 0, weight == scalar")
 
+P = "fontdrasil/src/piecewise_linear_map.rs"
+C = "fontdrasil/src/coords.rs"
+H("c08_plm_map_3nodes", "C08", "fontdrasil", "piecewise_linear_map", funcs=[P + "::PiecewiseLinearMap::map", P + "::lerp"],
+  bound="3 nodes (sorted from, duplicates allowed), 6 values + probe on the k/4 grid in [-2,2]",
+  oracle="node-exact (first duplicate), offset rule outside the nodes, value within neighbouring to-values inside; lerp's 0<=t<=1 assert unreachable")
+H("c08_plm_map_monotone_2nodes", "C08", "fontdrasil", "piecewise_linear_map", funcs=[P + "::PiecewiseLinearMap::map", P + "::lerp"],
+  bound="2 nodes strictly increasing from, non-decreasing to, two probes, all on the k/4 grid", oracle="x1<=x2 => map(x1)<=map(x2)")
+H("c08_plm_new_reverse_2nodes", "C08", "fontdrasil", "piecewise_linear_map", funcs=[P + "::PiecewiseLinearMap::new", P + "::PiecewiseLinearMap::reverse", P + "::PiecewiseLinearMap::map"],
+  bound="2 symbolic (from,to) pairs on the k/4 grid", oracle="new sorts and keeps pairs; reverse swaps roles; reverse(map(node)) == node for strictly monotone maps")
+for _n, _shape in [("c08_conv_2nodes_default_min", "[0,1] default 0"), ("c08_conv_2nodes_default_max", "[20,90] default 1"),
+                   ("c08_conv_3nodes_default_mid", "[100,400,900] default 1"), ("c08_conv_3nodes_default_first", "[100,400,900] default 0"),
+                   ("c08_conv_3nodes_default_last", "[-0.5,12.25,100] default 2"), ("c08_conv_3nodes_flat_segment", "[20,20,90] default 0"),
+                   ("c08_conv_4nodes_default_inner", "[-0.5,0,12.25,100] default 2"), ("c08_conv_1node", "[5] default 0")]:
+    H(_n, "C08", "fontdrasil", "coords", tier=("quick" if _n in ("c08_conv_2nodes_default_min", "c08_conv_3nodes_default_mid") else "thorough"), funcs=[C + "::CoordConverter::new", C + "::ConvertSpace impls (user/design/normalized)", P + "::PiecewiseLinearMap::{new,reverse,map}"],
+      bound="design shape " + _shape + " concrete; user values strictly increasing + probe symbolic on the k/4 grid in [-2,2]",
+      oracle="user node -> its design value; node normalization == reference design normalization (default 0, design min -1, design max +1); in-range probe normalizes within the node hull; 0 denormalizes to the default")
+H("c08_conv_user_design_roundtrip_nodes", "C08", "fontdrasil", "coords", tier="thorough", funcs=[C + "::CoordConverter::new", C + "::ConvertSpace impls"],
+  bound="design [100,400,900] default 1; 3 symbolic user nodes on the k/4 grid", oracle="user->design->user and design->user at nodes; -1/+1 denormalize to user extremes; default index out of bounds is Err")
+H("c08_default_normalization", "C08", "fontdrasil", "coords", tier="thorough", funcs=[C + "::CoordConverter::default_normalization", C + "::CoordConverter::new"],
+  bound="min<=default<=max and probe symbolic on the k/4 grid (all coincidence cases)", oracle="default->0, min->-1 (if < default), max->+1 (if > default), in-range probe in [-1,1] with the sign of (x-default)")
+H("c08_unmapped", "C08", "fontdrasil", "coords", tier="thorough", funcs=[C + "::CoordConverter::unmapped", C + "::CoordConverter::new"],
+  bound="min<=default<=max symbolic on the k/4 grid", oracle="identity at default; default->0, min->-1, max->+1")
+H("c08_f2dot14_exact_on_grid", "C08", "fontdrasil", "coords", funcs=[C + "::Coord<NormalizedSpace>::to_f2dot14"],
+  bound="k/4 grid in [-1,1]", oracle="2.14 conversion exact")
+
+F = "fontir/src/feature_variations.rs"
+for _n, _sh, _t in [("c16_overlay_1ax_w_onto_w", "self{wght} onto other{wght}", "quick"), ("c16_overlay_1ax_w_onto_none", "self{wght} onto other{}", "quick"),
+                    ("c16_overlay_1ax_none_onto_w", "self{} onto other{wght}", "quick"), ("c16_overlay_1ax_none_onto_none", "self{} onto other{}", "quick"),
+                    ("c16_overlay_2ax_w_onto_wd", "self{wght} onto other{wght,wdth}", "thorough"), ("c16_overlay_2ax_wd_onto_w", "self{wght,wdth} onto other{wght}", "thorough"),
+                    ("c16_overlay_2ax_wd_onto_wd", "self{wght,wdth} onto other{wght,wdth}", "thorough"), ("c16_overlay_2ax_w_onto_d", "self{wght} onto other{wdth}", "thorough"),
+                    ("c16_overlay_2ax_d_onto_wd", "self{wdth} onto other{wght,wdth}", "thorough"), ("c16_overlay_2ax_wd_onto_d", "self{wght,wdth} onto other{wdth}", "thorough"),
+                    ("c16_overlay_2ax_wd_onto_none", "self{wght,wdth} onto other{}", "thorough"), ("c16_overlay_2ax_none_onto_wd", "self{} onto other{wght,wdth}", "thorough")]:
+    H(_n, "C16", "fontir", "feature_variations", tier=_t, funcs=[F + "::NBox::overlay_onto", F + "::NBox::{insert,get,iter}"],
+      bound="shape " + _sh + "; bounds on the k/4 grid with lo<hi, probe on the k/8 grid; unwind 4",
+      oracle="nothing of other lost; intersection exact and inside both; remainder inside other; no remainder => other inside self; a cut remainder shares no interior point with the intersection")
+H("c16_nbox_insert_get_cleanup", "C16", "fontir", "feature_variations", funcs=[F + "::NBox::{insert,get,cleanup}"],
+  bound="one axis, optional bounds on the k/4 grid in [-2,2]", oracle="insert clamps to [-1,1]; cleanup drops exactly full-range axes and keeps the region")
+for _a, _b in [(1, 1), (1, 2), (2, 1), (2, 2), (3, 1), (1, 3), (1, 0)]:
+    H("c16_rank_key_%dw_%dw" % (_a, _b), "C16", "fontir", "feature_variations", funcs=[F + "::Rank::sort_key"],
+      bound="rank word counts %d and %d concrete, all bits symbolic" % (_a, _b), oracle="popcount(a) > popcount(b) => key(a) < key(b)")
+for _a, _b in [(1, 1), (1, 2), (2, 1), (2, 2), (0, 1), (2, 0)]:
+    H("c16_rank_arith_%dw_%dw" % (_a, _b), "C16", "fontir", "feature_variations",
+      funcs=[F + "::Rank::{bitor,bitor_assign,eq,is_all_zeros,first_bit_is_set,right_shift_one}"],
+      bound="rank word counts %d and %d concrete, all bits symbolic" % (_a, _b), oracle="agrees with u128 arithmetic")
+H("c16_rank_new_is_single_bit", "C16", "fontir", "feature_variations", funcs=[F + "::Rank::new"], bound="rule index 0..127", oracle="value == 1 << i")
+H("c16_overlay_whole_2rules_1axis", "C16", "fontir-c4", "feature_variations", tier="thorough", mem_gb=30, timeout=7200,
+  funcs=[F + "::overlay_feature_variations", F + "::merge_same_sub_rules", F + "::merge_same_region_rules", F + "::NBox::overlay_onto", F + "::Rank::*"],
+  bound="2 rules, one box each on one axis, bounds on the k/4 grid, probe strictly between grid lines; container capacity 4; unwind 6",
+  oracle="first output box containing the probe carries exactly the substitutions of the rules containing the probe, in rule order")
+
 PROPERTIES = {
+    "C16": {"outside": "more than 2 axes / more than one box per region in the box step; the loop of overlay_feature_variations beyond the 2-rule instance; to_condition_set; "
+                       "design-space normalisation of conditions in fontbe; record sorting in fea-rs; lookup construction",
+            "assumptions": ["the composition of the box step and the rank order into the overlay loop is argued in harness/fontir/feature_variations.rs, not solved, beyond the 2-rule instance"]},
+    "C08": {"outside": "fontbe::avar::to_segment_map and the fvar record fields (did not fit CBMC: > 16 GB), named-instance ranges, CoordConverter::new with symbolic DESIGN values (conditional pushes make map lengths symbolic: > 28 GB), off-grid values",
+            "assumptions": ["design-side selection logic of CoordConverter::new is covered on a catalog of 8 concrete design shapes only"]},
     "C07": {"outside": "layouts off the k/4 grid, > 2 axes in K harnesses, LocationSortingHat::key_for with symbolic locations, new_extrapolating",
             "assumptions": []},
 }
